@@ -117,6 +117,14 @@ CWordOK(c, w) == w = <<>> \/ (CActOK(c, w[1]) /\ CWordOK(CAct(c, w[1]), Tail(w))
 (* every row of one descriptor table is matched by a row of the other *)
 RowsMatch(A, B, tol) == /\ \A i \in DOMAIN A : \E j \in DOMAIN B : Within(A[i], B[j], tol)
                         /\ \A j \in DOMAIN B : \E i \in DOMAIN A : Within(A[i], B[j], tol)
+(* the crystal entry points collect the surroundings within 6 A (1200 units of 0.005 A) of the atoms described: an atom at a distance
+   of exactly 6 A - a cell edge of 6.000 A puts every atom's own translate there - is in or out by rounding (the property does not say
+   whether the sphere is closed, as for C03) *)
+EnvRadius == 1200
+OnEnvSphere(c) ==
+  \E i \in DOMAIN c.atoms : \E j \in DOMAIN c.atoms :
+    \E h \in {<<x, y, z>> : x \in -2..2, y \in -2..2, z \in -2..2} :
+      D2(c.atoms[i].p, [k \in Idx |-> c.atoms[j].p[k] + h[k] * c.cell[k]]) = EnvRadius * EnvRadius
 (* the listed atoms form separate molecules: an atom of one cell is at least `clear` units away from every atom of the 26
    neighbouring cells that is not its own image ... kept simple: from every atom of every other cell *)
 PeriodicClear(c, clear) ==
